@@ -204,7 +204,7 @@ class C17(Prop):
     prop_module = "Props.C17"
     prop_file = "Props/C17.v"
     coq_targets = ["Props/C17.vo", "Run/Judge_C17.vo"]
-    sizes = {"quick": 400, "thorough": 12000}
+    sizes = {"quick": 400, "thorough": 10000}
     design_ref = "DESIGN.md section 6 C17"
     rule = ("generated template trees with .partial/ folders and request lists (empty, duplicates, unknown names, "
             "permutations) x engine history before the judged RenderPartials call (fresh engine with no "
